@@ -6,7 +6,7 @@ from typing import Dict, List, Optional, Set, Tuple
 
 from .core import AnalysisError, Report
 from .effects import Effects, FuncId, FS_READ, FS_WRITE, MAY_REJECT, NONDET
-from .prog import (ClassInfo, ModuleInfo, Program, dotted, enclosing, func_params, guards_of,
+from .prog import (ClassInfo, ModuleInfo, Program, dotted, enclosing, func_params, guards_of, inline_locals,
                    local_assignments, parent, unparse, walk_no_nested)
 
 SWALLOWING = {"Exception", "BaseException", "ParseBaseException", "ParseException",
@@ -1055,3 +1055,106 @@ def rule_item_state_defined_before_use(ctx, rep: Report, rid="R7", packages=("gt
                     nontrivial=False)
     if n < min_classes:
         raise AnalysisError(f"{rep.prop}/{rid}: only {n} classes analysed")
+
+
+def _validated_memo_return(prog, fn, ret, tparam, val_tests) -> bool:
+    """`if K in self.M: return self.M[K]` is as good as the validated lookup when the only stores into self.M in
+    this function are `self.M[K] = <result>` made after the rejections, and K identifies the typename completely
+    (it is computed from the namespace qualifiers as well as the name)."""
+    v = ret.value
+    if not (isinstance(v, ast.Subscript) and _self_attr(v.value)):
+        return False
+    memo, key = v.value.attr, inline_locals(fn, v.slice)
+    ktxt = unparse(key)
+    gs = guards_of(ret, fn, include_exits=True)
+    if not any(pol and unparse(inline_locals(fn, ast.parse(t, mode="eval").body)).replace(" ", "") ==
+               f"{ktxt}inself.{memo}".replace(" ", "") for t, pol in gs):
+        return False
+    stores = [n for n in walk_no_nested(fn) if isinstance(n, ast.Subscript) and isinstance(n.ctx, ast.Store) and _self_attr(n.value, memo)]
+    if not stores:
+        return False
+    for st in stores:
+        if unparse(inline_locals(fn, st.slice)) != ktxt:
+            return False
+        passed = {t for t, pol in guards_of(st, fn, include_exits=True) if not pol}
+        if not val_tests <= passed:
+            return False
+    # the key covers the qualifiers
+    if f"{tparam}.namespaces" in ktxt:
+        return True
+    tn = prog.cls("Typename")
+    for c in ast.walk(key):
+        if isinstance(c, ast.Call) and isinstance(c.func, ast.Attribute) and unparse(c.func.value) == tparam:
+            m = prog.find_method(tn, c.func.attr)
+            if m is not None and any(_self_attr(x, "namespaces") for x in ast.walk(m[1])):
+                return True
+    return False
+
+
+def rule_lookup_validated(ctx, rep: Report, rid="V6"):
+    """Namespace.find_class_or_function (the resolution of a typedef's target): every result it returns has
+    passed the 'exists' and the 'is unique' rejection, and the candidates are selected by the typename's
+    namespace qualifiers *and* its name - a misspelt or deleted qualifier must end in the rejection."""
+    prog = ctx.prog
+    ci = prog.cls("Namespace")
+    fn = prog.method("Namespace", "find_class_or_function")
+    tparam = func_params(fn)[1] if len(func_params(fn)) > 1 else None
+    if tparam is None:
+        raise AnalysisError("Namespace.find_class_or_function: typename parameter not found")
+    raises = [n for n in walk_no_nested(fn) if isinstance(n, ast.Raise)]
+    tests = []
+    for r in raises:
+        g = enclosing(r, ast.If)
+        if g is not None and r in g.body:
+            tests.append((r, g.test))
+
+    def kind(t):
+        s = unparse(t).replace(" ", "")
+        if isinstance(t, ast.UnaryOp) and isinstance(t.op, ast.Not):
+            return "empty", unparse(t.operand)
+        if isinstance(t, ast.Compare) and isinstance(t.left, ast.Call) and unparse(t.left.func) == "len" and len(t.ops) == 1:
+            c = t.comparators[0]
+            if isinstance(c, ast.Constant):
+                if (isinstance(t.ops[0], ast.Eq) and c.value == 0) or (isinstance(t.ops[0], ast.Lt) and c.value == 1):
+                    return "empty", unparse(t.left.args[0])
+                if (isinstance(t.ops[0], ast.Gt) and c.value == 1) or (isinstance(t.ops[0], ast.GtE) and c.value == 2) \
+                        or (isinstance(t.ops[0], ast.NotEq) and c.value == 1):
+                    return "many", unparse(t.left.args[0])
+        return None, s
+    kinds = {}
+    for r, t in tests:
+        k, v = kind(t)
+        if k:
+            kinds.setdefault(k, []).append((r, t, v))
+    loc = f"{ci.mod.rel}:{fn.lineno}"
+    rep.add(rid, "lookup:find_class_or_function:rejects a typename that names nothing", "empty" in kinds,
+            "no `raise` guarded by the emptiness of the candidate list", loc)
+    rep.add(rid, "lookup:find_class_or_function:rejects an ambiguous typename", "many" in kinds,
+            "no `raise` guarded by more than one candidate", loc)
+    if "empty" not in kinds:
+        return
+    cand = kinds["empty"][0][2]
+    # every return has passed both rejections
+    val_tests = {unparse(t) for k in kinds.values() for _, t, _ in k}
+    for r in [n for n in walk_no_nested(fn) if isinstance(n, ast.Return)]:
+        gs = guards_of(r, fn, include_exits=True)
+        passed = {t for t, pol in gs if not pol}
+        ok = val_tests <= passed or _validated_memo_return(prog, fn, r, tparam, val_tests)
+        rep.add(rid, f"lookup:find_class_or_function:return {unparse(r.value)[:30] if r.value else ''}:only after the rejections",
+                ok, f"this return is reached under {[(t, pol) for t, pol in gs]} without passing {sorted(val_tests - passed)}: a "
+                "typename that names nothing in this module (misspelt / deleted qualifier) gets a declaration anyway instead of the "
+                "'Cannot find class' rejection", f"{ci.mod.rel}:{r.lineno}")
+    # the candidate list is selected by qualifiers and by name
+    src = unparse(fn)
+    uses_ns = any(isinstance(c, ast.Call) and any(unparse(a) == f"{tparam}.namespaces" for a in c.args) for c in ast.walk(fn))
+    name_filters = [c for c in ast.walk(fn) if isinstance(c, ast.Compare) and len(c.ops) == 1 and isinstance(c.ops[0], ast.Eq)
+                    and f"{tparam}.name" in (unparse(c.left), unparse(c.comparators[0]))]
+    rep.add(rid, "lookup:find_class_or_function:candidates selected by the typename's namespaces and name", uses_ns and bool(name_filters),
+            f"namespaces used: {uses_ns}; name comparisons: {len(name_filters)}", loc)
+    # the candidate list is built in this call only (no state kept between lookups can add to it)
+    adds = [n for n in walk_no_nested(fn) if (isinstance(n, ast.AugAssign) and unparse(n.target) == cand) or
+            (isinstance(n, ast.Call) and isinstance(n.func, ast.Attribute) and unparse(n.func.value) == cand and n.func.attr in MUTATORS)]
+    inits = [n for n in walk_no_nested(fn) if isinstance(n, ast.Assign) and unparse(n.targets[0]) == cand]
+    rep.add(rid, "lookup:find_class_or_function:candidate list starts empty in every call", len(inits) >= 1 and all(
+        isinstance(i.value, (ast.List, ast.ListComp)) for i in inits), f"{len(inits)} initialisation(s), {len(adds)} addition(s)", loc,
+        nontrivial=False)
